@@ -725,6 +725,23 @@ def fails_py(r, n, xval):
     return None
 
 
+def outcome_kind(res):
+    st, val = res
+    return st if st != "value" else ("value" if isinstance(val, (Tensor, Number)) else "lazy")
+
+
+def outcome_asymmetry(r, n, xval):
+    """(mode, outcome with the user's names, outcome with fresh binder names) if one raises and the other
+    returns a value — the choice of bound names must not decide whether a value is returned"""
+    r2 = rename_binders(r)
+    for mode in ("reflect", "eager"):
+        o1 = outcome_kind(run_mode(r, n, mode, xval))
+        o2 = outcome_kind(run_mode(r2, n, mode, xval))
+        if {o1, o2} == {"declined", "value"}:
+            return (mode, o1, o2)
+    return None
+
+
 def shrink(r, n, xval, still_fails, budget=150):
     """greedy: replace the recipe by a same-kind sub-recipe, or a sub-recipe by a leaf"""
     cur = r
@@ -1243,6 +1260,16 @@ def search(ctx, broken):
         n, r, xval = gen_case(rng, ctx.tier)
         f = fails_py(r, n, xval)
         if f is None:
+            asym = outcome_asymmetry(r, n, xval)
+            if asym:
+                ctx.fail("input", "C05.name-choice-changes-outcome",
+                         witness={"n": n, "recipe": describe(r), "mode": asym[0], "x": xval},
+                         expected=f"fresh binder names: {asym[2]}", got=f"user names: {asym[1]}",
+                         python=py_program(r if asym[1] == "declined" else rename_binders(r), n, asym[0], xval) +
+                         "FAILS = False  # reaching this line means the construction no longer raises\n")
+                found += 1
+                if found >= 3:
+                    break
             continue
         if f[0] == "value":
             report_value(ctx, "C05.value-ne-oracle", r, n, xval, f[1], f[2], f[3])
@@ -1269,4 +1296,4 @@ def replay(ctx, doc):
     r = tup(w["recipe"])
     xval = tuple(w["x"]) if w.get("x") else None
     f = fails_py(r, w["n"], xval)
-    return f is not None
+    return f is not None or outcome_asymmetry(r, w["n"], xval) is not None
